@@ -241,7 +241,8 @@ void constructCommon(ModelSignature model,
         // launch initial set of jobs
         std::vector<std::thread> workers(num_parallel_jobs);
         for(size_t id=0; id<num_parallel_jobs; id++){
-            x[id] = manager.next(max_num_points - total_num_launched);
+            if (total_num_launched < max_num_points) // respect the budget, same as in collect_finished()
+                x[id] = manager.next(max_num_points - total_num_launched);
             if (!x[id].empty()){
                 total_num_launched += x[id].size() / num_dimensions;
                 set_initial_guess(x[id], y[id]);
